@@ -756,7 +756,8 @@ def obligations(tier):
                         continue
                     obs.append(ReadUamiv(nspec, nz, T, conv))
     # the other file kinds sharing the layout (header name field)
-    for name, nspec, nz, T in (('EMISSIONS', 2, 1, 2), ('EMISSIONS', 1, 2, 2)):
+    for name, nspec, nz, T in (('EMISSIONS', 2, 1, 2), ('EMISSIONS', 1, 2, 2),
+                               ('INSTANT', 1, 1, 2), ('INSTANT', 2, 1, 3)):
         obs.append(ReadUamiv(nspec, nz, T, 'hours', name.ljust(10)))
     # variable contents, grids with and without length-1 axes
     grids = [(2, 2, 2, 2, 3), (1, 1, 1, 1, 1), (1, 2, 1, 1, 2),
@@ -767,6 +768,7 @@ def obligations(tier):
     for name in ('AVERAGE', 'EMISSIONS'):
         for g in grids:
             obs.append(ReadVarData(*g, name=name.ljust(10)))
+    obs.append(ReadVarData(*grids[0], name='INSTANT'.ljust(10)))
     # generic 3-D met files (no header: structure discovered by scanning)
     one = [(1, 2, 1, 1), (2, 2, 1, 2), (2, 3, 2, 1), (3, 2, 2, 2),
            (1, 4, 1, 1, 1200), (2, 3, 1, 2, 600), (1, 6, 1, 1, 1200)]
